@@ -73,10 +73,31 @@ static std::string dumpSparse(QpSparseArray<Q> const& a, bool asRational){
 }
 
 
-static std::string doTables(std::string const& name, std::size_t c, bool asRational){
+static std::string bits32(float x){
+	std::uint32_t u; std::memcpy(&u, &x, sizeof u);
+	std::ostringstream os; os << u; return os.str();
+}
+template<class Q>
+static std::string dumpSparseBits(QpSparseArray<Q> const& a, std::string (*show)(Q)){
+	std::ostringstream os;
+	os << "h=" << a.height() << " w=" << a.width() << " space=" << Peek<Q>::space(a) << " used=" << Peek<Q>::used(a) << " rows=";
+	for(std::size_t r = 0; r != a.height(); ++r){
+		typename QpSparseArray<Q>::Row const& row = a.row(r);
+		os << show(row.defaultvalue) << ":";
+		for(std::size_t b = 0; b != row.size; ++b) os << (b ? "," : "") << row.entry[b].index << "=" << show(row.entry[b].value);
+		os << ";";
+	}
+	return os.str();
+}
+
+static std::string dumpSparseImpl(QpSparseArray<double> const& a, int mode);
+static std::string dumpSparseImpl(QpSparseArray<float> const& a, int mode);
+// Q = double: `tables` (bit patterns) / `tablesq` (exact rationals);  Q = float: `tablesf` (CSvmTrainer's default CacheType)
+template<class Q>
+static std::string doTablesT(std::string const& name, std::size_t c, int mode){
 	LinearKernel<RealVector> kernel;
-	CSvmTrainer<RealVector, double> trainer(&kernel, 1.0, false);
-	QpSparseArray<double> nu, M;
+	CSvmTrainer<RealVector, Q> trainer(&kernel, 1.0, false);
+	QpSparseArray<Q> nu, M;
 	std::feclearexcept(FE_ALL_EXCEPT);
 	if(name.compare(0, 5, "WWCS_") == 0) trainer.setupMcParametersWWCS(nu, M, c);
 	else if(name.compare(0, 7, "ATMATS_") == 0) trainer.setupMcParametersATMATS(nu, M, c);
@@ -85,14 +106,18 @@ static std::string doTables(std::string const& name, std::size_t c, bool asRatio
 	else return "bad-op";
 	bool inexact = std::fetestexcept(FE_INEXACT) != 0;
 	bool isNu = name.size() >= 3 && name.substr(name.size() - 3) == "_nu";
-	std::string r = dumpSparse(isNu ? nu : M, asRational);
+	QpSparseArray<Q> const& a = isNu ? nu : M;
+	std::string r = dumpSparseImpl(a, mode);
 	// oracle: the number of added entries never exceeds the reserved space (add() does not check under NDEBUG)
-	QpSparseArray<double> const& a = isNu ? nu : M;
-	if(Peek<double>::used(a) > Peek<double>::space(a)) r += " !oracle sparse-array-overflow";
-	if(asRational && inexact) r += " !oracle inexact-table-construction";
+	if(Peek<Q>::used(a) > Peek<Q>::space(a)) r += " !oracle sparse-array-overflow";
+	if(mode == 1 && inexact) r += " !oracle inexact-table-construction";
 	return r;
 }
-
+static std::string dumpSparseImpl(QpSparseArray<double> const& a, int mode){ return dumpSparse(a, mode == 1); }
+static std::string showf(float x){ return bits32(x); }
+static std::string dumpSparseImpl(QpSparseArray<float> const& a, int){ return dumpSparseBits<float>(a, &showf); }
+static std::string doTables(std::string const& name, std::size_t c, bool asRational){ return doTablesT<double>(name, c, asRational ? 1 : 0); }
+static std::string doTablesF(std::string const& name, std::size_t c){ return doTablesT<float>(name, c, 2); }
 
 // ---------------------------------------------------------------------------------------------
 // trainer level: `data`, `probes`, `train`
@@ -447,6 +472,8 @@ int main(int argc, char** argv){
 		if(t.empty()){ std::cout << "\n"; continue; }
 		if((t[0] == "tables" || t[0] == "tablesq") && t.size() == 3){
 			std::cout << doTables(t[1], std::stoul(t[2]), t[0] == "tablesq") << "\n";
+		}else if(t[0] == "tablesf" && t.size() == 3){
+			std::cout << doTablesF(t[1], std::stoul(t[2])) << "\n";
 		}else if(t[0] == "data" && t.size() >= 4){
 			std::vector<std::size_t> a;
 			if(!vh::allNat(t, 1, a) || a.size() != 3 + a[0]*a[1] + a[0]){ std::cout << "bad-op\n"; continue; }
